@@ -1,4 +1,123 @@
-(* C11 part B (dijkstra, astar, astar_grid) - property theorems.  Filled in as the proofs land. *)
+(* C11 part B (dijkstra, astar, astar_grid + reconstruct_path) - property theorems.
+   Models: C11/BestFirst.v (generic closed-set best-first loop; dijkstra_gen / astar_gen over Z),
+           C11/BestGrid.v (astar_grid over exact Z[sqrt 2]).  `fuel` is the explicit loop bound of the model:
+   every theorem holds for ANY fuel whenever the model returns a result (Some r); fuel exhaustion is None. *)
 From Coq Require Import List ZArith Bool.
-From SV Require Import C11.BestFirst C11.BestGrid C11.BestSpec.
+From SV Require Import C11.Paths C11.BestFirst C11.BestGrid C11.BestSpec C11.BestGraph
+  C11.BestSpecProofs C11.BestOrder C11.BestProofs1 C11.BestProofs2 C11.BestProofsInst C11.BestProofs4 C11.BestProofs5.
 Import ListNotations.
+Open Scope Z_scope.
+
+(* (1) A returned path starts at the source, ends at a goal node, uses only existing edges and its weights sum to
+   the reported objective; without a path the objective is inf and the status INFEASIBLE / MAX_ITER.
+   Any weights (also negative), any heuristic, any weight factor, any limits, goal given as a set of nodes. *)
+Theorem C11_best_path_valid :
+  (forall fuel adj start goals max_iter max_cost r,
+     dijkstra_gen fuel adj start goals max_iter max_cost = Some r -> graph_res_ok adj start goals OPTIMAL r)
+  /\ (forall fuel adj start goals htab weight max_iter max_cost r,
+     astar_gen fuel adj start goals htab weight max_iter max_cost = Some r ->
+     graph_res_ok adj start goals (if weight =? 1 then OPTIMAL else FEASIBLE) r)
+  /\ (forall g start goal directions h blocked cost_map weight max_iter r,
+     astar_grid_zr g start goal directions h blocked cost_map weight max_iter = Some r ->
+     grid_res_ok g start goal directions blocked cost_map weight r).
+Proof. exact (conj dijkstra_path_valid (conj astar_path_valid astar_grid_path_valid)). Qed.
+Print Assumptions C11_best_path_valid.
+
+(* the same for the generic loop, any node type / cost type / heap key (this is what covers the float twin) *)
+Theorem C11_best_path_valid_generic :
+  forall (N C K : Type) (neqb : N -> N -> bool), (forall a b, neqb a b = true <-> a = b) ->
+  forall czero cadd cltb (kltb : K -> K -> bool) mkkey limit_of found nbrs is_goal max_iter max_cost (start : N) fuel
+         (r : result N C),
+    best_first neqb czero cadd cltb kltb mkkey limit_of found nbrs is_goal max_iter max_cost fuel start = Some r ->
+    res_ok czero cadd found nbrs is_goal start r.
+Proof. exact (@best_first_path_valid). Qed.
+Print Assumptions C11_best_path_valid_generic.
+
+(* (2) INFEASIBLE (possible only when the heap ran empty before max_iter) with no max_cost limit:
+   no goal node is reachable from the start. *)
+Theorem C11_best_infeasible_sound :
+  (forall fuel adj start goals max_iter r,
+     dijkstra_gen fuel adj start goals max_iter None = Some r -> r_status r = INFEASIBLE ->
+     no_goal_reachable adj start goals)
+  /\ (forall fuel adj start goals htab weight max_iter r,
+     astar_gen fuel adj start goals htab weight max_iter None = Some r -> r_status r = INFEASIBLE ->
+     no_goal_reachable adj start goals)
+  /\ (forall g start goal directions h blocked cost_map weight max_iter r,
+     astar_grid_zr g start goal directions h blocked cost_map weight max_iter = Some r -> r_status r = INFEASIBLE ->
+     unreachable_goal zr_add (zr_grid_nbrs g directions blocked cost_map) (cell_eqb goal) start).
+Proof. exact (conj dijkstra_infeasible_sound (conj astar_infeasible_sound astar_grid_infeasible_sound)). Qed.
+Print Assumptions C11_best_infeasible_sound.
+
+(* the boolean checker run on the IMPLEMENTATION's outputs (Cases/C11/best_*_spec_*.v) decides the path spec *)
+Theorem C11_best_spec_check_sound :
+  forall (N C : Type) (neqb : N -> N -> bool), (forall a b, neqb a b = true -> a = b) ->
+  forall cadd nbrs (D : Type) (dok : D -> C -> bool) czero start is_goal (o : obs N D),
+    result_check neqb cadd nbrs dok czero start is_goal o = true ->
+    result_spec_gen cadd nbrs dok czero start is_goal o.
+Proof. exact (@result_check_sound). Qed.
+Print Assumptions C11_best_spec_check_sound.
+
+(* (3) Optimality.  Non-negative weights (nonneg_adj, boolean) and - for astar with weight 1 - a heuristic table that
+   is consistent on the graph and 0 on the goal nodes (consistent_adj, boolean): the reported objective is <= the
+   weight of EVERY walk from the start to ANY goal node whose weight is within max_cost (all walks if no max_cost),
+   and INFEASIBLE means no such walk exists.  (Beyond max_cost the code may return a longer path: not claimed.) *)
+Theorem C11_bestfirst_optimal :
+  (forall fuel adj start goals max_iter max_cost r,
+     nonneg_adj adj = true ->
+     dijkstra_gen fuel adj start goals max_iter max_cost = Some r -> graph_opt_ok adj start goals max_cost r)
+  /\ (forall fuel adj start goals htab max_iter max_cost r,
+     nonneg_adj adj = true -> consistent_adj adj goals htab = true ->
+     astar_gen fuel adj start goals htab 1 max_iter max_cost = Some r -> graph_opt_ok adj start goals max_cost r).
+Proof. exact (conj dijkstra_optimal astar_optimal). Qed.
+Print Assumptions C11_bestfirst_optimal.
+
+(* with (1): without max_cost the objective IS the shortest-walk distance (C11.Paths.is_dist) to the goal node
+   the returned path ends in, and no goal node is nearer *)
+Theorem C11_bestfirst_is_dist : forall adj start goals (r : result nat Z) found,
+  graph_res_ok adj start goals found r -> graph_opt_ok adj start goals None r ->
+  forall d0, r_obj r = Some d0 ->
+  exists t p, r_path r = Some p /\ goal_in goals t = true /\ is_dist (adj_edges adj) start t d0
+              /\ forall t' d', goal_in goals t' = true -> is_dist (adj_edges adj) start t' d' -> d0 <= d'.
+Proof. exact best_is_dist. Qed.
+Print Assumptions C11_bestfirst_is_dist.
+
+(* the generic statement: any node type, any totally ordered cost monoid (ordered_costs), any heap key whose
+   order refines the f-values: this is the theorem instantiated above, and for Z[sqrt 2] below *)
+Theorem C11_bestfirst_optimal_generic :
+  forall (N C : Type) (neqb : N -> N -> bool), (forall a b, neqb a b = true <-> a = b) ->
+  forall czero cadd cltb, ordered_costs czero cadd cltb ->
+  forall nbrs is_goal max_iter max_cost (start : N),
+    (forall u v w, In (v, w) (nbrs u) -> cle cltb czero w) ->
+  forall wh : N -> C,
+    (forall u v w, In (v, w) (nbrs u) -> cle cltb (wh u) (cadd w (wh v))) ->
+    (forall t, is_goal t = true -> wh t = czero) ->
+  forall found fuel r, found <> INFEASIBLE ->
+    astar_c neqb czero cadd cltb wh found nbrs is_goal max_iter max_cost fuel start = Some r ->
+    opt_res czero cadd cltb nbrs is_goal max_cost start r.
+Proof. exact (@astar_c_optimal). Qed.
+Print Assumptions C11_bestfirst_optimal_generic.
+
+(* ---- non-vacuity ---- *)
+Definition diamond : adjacency := [[(1%nat, 4); (2%nat, 1)]; [(3%nat, 1)]; [(1%nat, 2); (3%nat, 5)]; []].
+
+Example C11_best_nonvacuous_dijkstra :
+  obs_of (dijkstra diamond 0 [3%nat] 1000000 None) = Some (OPTIMAL, Some [0; 2; 1; 3]%nat, Some 4).
+Proof. vm_compute. reflexivity. Qed.
+
+Example C11_best_nonvacuous_astar :
+  obs_of (astar diamond 0 [3%nat] [3; 1; 2; 0] 1 1000000 (Some 10)) = Some (OPTIMAL, Some [0; 2; 1; 3]%nat, Some 4).
+Proof. vm_compute. reflexivity. Qed.
+
+Example C11_best_nonvacuous_infeasible :
+  obs_of (dijkstra [[(1%nat, 2)]; []; [(1%nat, 1)]] 0 [2%nat] 1000000 None) = Some (INFEASIBLE, None, None).
+Proof. vm_compute. reflexivity. Qed.
+
+Example C11_best_nonvacuous_grid :
+  obs_of (astar_grid_zr [[0; 0; 0]; [0; 1; 0]; [0; 0; 0]] (0, 0) (2, 2) 8 Hauto [1] [] 1 1000000)
+  = Some (OPTIMAL, Some [(0, 0); (0, 1); (1, 2); (2, 2)], Some (2, 1)).
+Proof. vm_compute. reflexivity. Qed.
+
+Example C11_best_nonvacuous_inputs :
+  nonneg_adj diamond = true /\ consistent_adj diamond [3%nat] [3; 1; 2; 0] = true
+  /\ consistent_adj diamond [3%nat] [0; 9; 0; 0] = false.
+Proof. vm_compute. auto. Qed.
